@@ -15,7 +15,7 @@ const BP_STREAM: u64 = 2 << 40;
 
 fn fsst_case_for(seed: u64, idx: u64, scale: u32) -> (FsstCase, Rng) {
     let mut rng = Rng::for_case(seed, FSST_STREAM + idx);
-    let kind = FSST_KINDS[(idx % FSST_KINDS.len() as u64) as usize];
+    let kind = fsst_kind_for(idx);
     let case = gen_fsst(&mut rng, kind, scale);
     (case, rng)
 }
@@ -77,7 +77,7 @@ pub fn run(args: &Args) -> i32 {
     let report = Report::new(
         args,
         "exploration",
-        "FSST: seeded byte-string arrays of 14 kinds (text, random, all-256, repeats, tiny, huge, threshold boundary, 0xFF-heavy, 511-chunk lengths, mixed, below-threshold, empty, skewed, prefixes) x i32/i64 offsets x optional non-zero first offset; non-trivial iff the encoder really ran (encoder switch on), distinct by (kind, offset width, #symbols, ratio bucket, log2 sizes). Bit-packing: ALL (u8/u16/u32/u64, width 0..=bits) pairs x 9 value patterns x reps on 1024-value chunks masked to the width with garbage-prefilled guarded outputs; non-trivial iff width>0 and some value non-zero, distinct by (type,width,pattern).",
+        "FSST: seeded byte-string arrays; every third one is a structured binary corpus (records over 22-64 multi-byte tokens that together cover all 256 byte values, Zipf frequencies, cut at token boundaries and mid-token, optional trailing 0x00/0xFF, record lengths around multiples of 511, totals around the 32 KiB threshold), the others rotate over 14 kinds (text, random, all-256, repeats, tiny, huge, threshold boundary, 0xFF-heavy, 511-chunk lengths, mixed, below-threshold, empty, skewed, prefixes) x i32/i64 offsets x optional non-zero first offset; non-trivial iff the encoder really ran (encoder switch on), distinct by (kind, offset width, #symbols, ratio bucket, log2 sizes). Bit-packing: ALL (u8/u16/u32/u64, width 0..=bits) pairs x 9 value patterns x reps on 1024-value chunks masked to the width with garbage-prefilled guarded outputs; non-trivial iff width>0 and some value non-zero, distinct by (type,width,pattern).",
         (40, 600),
     )
     .with_min_nontrivial(400);
